@@ -27,6 +27,7 @@ Fixpoint cert (p : alg) : list var :=
   | Graph (Vr v) q => v :: cert q
   | Graph (Tm _) q => cert q
   | Distinct q => cert q
+  | Slice _ q => cert q
   end.
 
 Fixpoint maybe (p : alg) : list var :=
@@ -43,6 +44,7 @@ Fixpoint maybe (p : alg) : list var :=
   | Graph (Vr v) q => v :: maybe q
   | Graph (Tm _) q => maybe q
   | Distinct q => maybe q
+  | Slice _ q => maybe q
   end.
 
 (* every variable occurring anywhere *)
@@ -60,6 +62,7 @@ Fixpoint allvars (p : alg) : list var :=
   | Graph (Vr v) q => v :: allvars q
   | Graph (Tm _) q => allvars q
   | Distinct q => allvars q
+  | Slice _ q => allvars q
   end
 with evars (e : expr) : list var :=
   match e with
@@ -99,6 +102,7 @@ Fixpoint df (p : alg) : bool :=
   | Graph (Tm _) q => df q
   | Graph (Vr _) q => df q && un q
   | Distinct _ => true
+  | Slice _ _ => false
   end.
 
 (* the right operand of a hash join must not repeat a solution, also after its
@@ -118,6 +122,7 @@ Fixpoint forgets (p : alg) : bool :=
   | Extend _ q _ _ => forgets q
   | Graph _ q => forgets q
   | Distinct q => forgets q
+  | Slice _ q => forgets q
   | BGP _ | Values _ => false
   end.
 
@@ -148,7 +153,7 @@ Fixpoint bool_vars (p : alg) : list var :=
   | Filter _ _ e q => bool_vars_e e ++ bool_vars q
   | Extend _ q v e =>
       (if boolean_valued e || copies_bool e (bool_vars q) then [v] else []) ++ bool_vars_e e ++ bool_vars q
-  | Project q _ | Graph _ q | Distinct q => bool_vars q
+  | Project q _ | Graph _ q | Distinct q | Slice _ q => bool_vars q
   end
 with bool_vars_e (e : expr) : list var :=
   match e with
@@ -167,7 +172,7 @@ Fixpoint cmp_vars (p : alg) : list var :=
   | LeftJoin _ a b e => cmp_vars a ++ cmp_vars b ++ cmp_vars_e e
   | Filter _ _ e q => cmp_vars_e e ++ cmp_vars q
   | Extend _ q _ e => cmp_vars_e e ++ cmp_vars q
-  | Project q _ | Graph _ q | Distinct q => cmp_vars q
+  | Project q _ | Graph _ q | Distinct q | Slice _ q => cmp_vars q
   end
 with cmp_vars_e (e : expr) : list var :=
   match e with
@@ -195,8 +200,9 @@ Fixpoint scan (names : list term) (inex : bool) (pushed : list var) (p : alg) {s
   | BGP _ => 0
   | Values _ => 0
   | Join lz a b =>
-      (if negb lz && negb inex && negb (hash_ok pushed b) then 3 else 0)
-      |>| (if lz && forgets a && nonempty pushed then 4 else 0)
+      (* trigger 3 (hash join over a right operand that may repeat a solution) is gone:
+         F-C04-3 was repaired by 3512ad97 *)
+      (if lz && forgets a && nonempty pushed then 4 else 0)
       |>| scan names inex pushed a
       |>| scan names inex (if lz then pushed ++ maybe a else pushed) b
   | LeftJoin pv a b e =>
@@ -240,6 +246,12 @@ Fixpoint scan (names : list term) (inex : bool) (pushed : list var) (p : alg) {s
          whether they bind a pushed variable themselves (finding F-C04-4) *)
       (if negb inex && nonempty (inter pushed (minusv (maybe q) (cert q))) then 4 else 0)
       |>| scan names inex pushed q
+  | Slice _ q =>
+      (* rdflib never joins lazily over a Slice (algebra.analyse) and the generator puts a
+         sliced sub-SELECT only at the top of the outermost group: no trigger.  (Under
+         OPTIONAL / EXISTS the OFFSET would apply to the restricted sequence - the family of
+         F-C04-4 - such queries are not generated.) *)
+      scan names inex pushed q
   end
 with scan_e (names : list term) (pushed : list var) (e : expr) {struct e} : N :=
   match e with
@@ -263,7 +275,7 @@ Fixpoint cmp_consts (p : alg) : list term :=
   | LeftJoin _ a b e => cmp_consts a ++ cmp_consts b ++ cmp_consts_e e
   | Filter _ _ e q => cmp_consts_e e ++ cmp_consts q
   | Extend _ q _ e => cmp_consts_e e ++ cmp_consts q
-  | Project q _ | Graph _ q | Distinct q => cmp_consts q
+  | Project q _ | Graph _ q | Distinct q | Slice _ q => cmp_consts q
   end
 with cmp_consts_e (e : expr) : list term :=
   match e with
@@ -286,7 +298,7 @@ Fixpoint lit_vars (p : alg) : list var :=
   | LeftJoin _ a b e => lit_vars a ++ lit_vars b ++ lit_vars_e e
   | Filter _ _ e q => lit_vars_e e ++ lit_vars q
   | Extend _ q v e => v :: lit_vars_e e ++ lit_vars q
-  | Project q _ | Distinct q => lit_vars q
+  | Project q _ | Distinct q | Slice _ q => lit_vars q
   | Graph (Vr v) q => v :: lit_vars q
   | Graph (Tm _) q => lit_vars q
   end
@@ -312,7 +324,7 @@ Fixpoint has_cmp_in (L : list var) (p : alg) : bool :=
   | LeftJoin _ a b e => has_cmp_in L a || has_cmp_in L b || has_cmp_e L e
   | Filter _ _ e q => has_cmp_e L e || has_cmp_in L q
   | Extend _ q _ e => has_cmp_e L e || has_cmp_in L q
-  | Project q _ | Graph _ q | Distinct q => has_cmp_in L q
+  | Project q _ | Graph _ q | Distinct q | Slice _ q => has_cmp_in L q
   end
 with has_cmp_e (L : list var) (e : expr) : bool :=
   match e with
